@@ -120,7 +120,7 @@ def cases(tier, cfg, seed):
         if c.id not in ids: ids.add(c.id); out.append(c)
     TS = ['double', 'float', 'int'] if tier == 'quick' else ALLT
     for T in TS:
-        for shape in ([(7,), (3, 5), (2, 3, 4)] if tier == 'quick' else [(1,), (7,), (16,), (3, 5), (4, 4), (2, 3, 4), (2, 2, 3, 2)]): add(Idx(T, shape))
+        for shape in ([(7,), (3, 5), (2, 3, 4), (2, 2, 2, 3, 2)] if tier == 'quick' else [(1,), (7,), (16,), (3, 5), (4, 4), (2, 3, 4), (2, 2, 3, 2)]): add(Idx(T, shape))
         # dynamic 1-D: every destination extent n <= N
         for N in ((5, 9) if tier == 'quick' else (3, 5, 8, 9, 17)):
             for n in range(1, N + 1):
@@ -143,6 +143,8 @@ def cases(tier, cfg, seed):
         for sp0, sp1 in combos[:30 if tier == 'quick' else 150]:
             if sp0[0] == 'int' and sp1[0] == 'int': continue
             add(FixSlice(T, (4, 6), [sp0, sp1]))
+        for sp1 in (fs(0, 6, 2), fs(1, 4), fs(3, 6), ('all',)):
+            for sp0 in (('all',), fs(0, -1), fs(0, 3), fs(1, 3)): add(FixSlice(T, (3, 6), [sp0, sp1]))
         # mixtures of dynamic-with-constants, iseq and fixed integers; views inside expressions
         add(FixSlice(T, (4, 6), [('seq', 1, 3, 1), fs(0, -1, 2)]))
         add(FixSlice(T, (4, 6), [('all',), ('seq', 0, 6, 3)]))
